@@ -21,6 +21,7 @@ structure Sim where
   c : Cfg
   s : St := {}
   kinds : List Kind := []
+  names : List Nat := []             -- the case line's name of each job, in creation order
   opened : List Nat := []            -- jobs whose gate was opened
   budget : List (String × Nat) := [] -- park point ↦ arrivals still to be parked
   parkedW : List (Nat × String) := [] -- (worker, point)
@@ -184,33 +185,46 @@ def showState (m : Sim) : String :=
   let han := (m.s.handlerLog.foldl (fun acc x => insertSorted x acc) []).map fun (j, v) => s!"{j}:{v}"
   s!"n={m.s.count}/{m.s.busy} run={runs} fin={m.s.finished.length} han=[{",".intercalate han}] g=ok"
 
-def newSub (m : Sim) (timed : Bool) (k : Kind) : Sim × Nat :=
+def newSub (m : Sim) (timed : Bool) (name : Nat) (k : Kind) : Sim × Nat :=
   let i := m.s.subs.length
   match app m (.submit timed) with
-  | some m1 => ({ m1 with kinds := m1.kinds ++ [k] }, i)
+  | some m1 => ({ m1 with kinds := m1.kinds ++ [k], names := m1.names ++ [name] }, i)
   | none => (m, i)
+
+def idxGo (name : Nat) : List Nat → Nat → Option Nat
+  | [], _ => none
+  | x :: xs, i => if x == name then some i else idxGo name xs (i + 1)
+
+/-- index of the (first) job the case line calls `name` -/
+def idxOf (m : Sim) (name : Nat) : Option Nat := idxGo name m.names 0
 
 /-- one op: (new simulator state, observation) -/
 def doOp (m : Sim) (tok : String) : Sim × String :=
   match tok.splitOn ":" with
   | ["s", k, kind] =>
-    let (m1, i) := newSub m false (parseKind kind)
+    let (m1, i) := newSub m false k.toNat! (parseKind kind)
     let m2 := quiesce fuel0 (runSub 100 m1 i)
     (m2, s!"s{k}={resOf m2 i}")
   | ["t", k, kind] =>
-    let (m1, i) := newSub m true (parseKind kind)
+    let (m1, i) := newSub m true k.toNat! (parseKind kind)
     let m2 := quiesce fuel0 (runSub 100 m1 i)
     (m2, s!"t{k}={resOf m2 i}")
   | ["i", k, kind] =>
-    let (m1, i) := newSub m false (parseKind kind)
+    let (m1, i) := newSub m false k.toNat! (parseKind kind)
     let m2 := quiesce fuel0 (runSub 100 m1 i)
     (m2, s!"i{k}")
   | ["as", k, kind] =>
-    let (m1, i) := newSub m false (parseKind kind)
+    let (m1, i) := newSub m false k.toNat! (parseKind kind)
     let m2 := quiesce fuel0 { m1 with asyncS := m1.asyncS ++ [i] }
     (m2, s!"as{k}=" ++ (if m2.parkedS.contains i then "parked" else "notparked"))
-  | ["j", k] => (m, s!"j{k}={resOf m k.toNat!}")
-  | ["r", k] => let m1 := quiesce fuel0 { m with opened := k.toNat! :: m.opened }; (m1, s!"r{k}")
+  | ["j", k] =>
+    match idxOf m k.toNat! with
+    | some i => if m.asyncS.contains i then (m, s!"j{k}={resOf m i}") else (m, s!"j{k}=pending")
+    | none => (m, s!"j{k}=pending")
+  | ["r", k] =>
+    match idxOf m k.toNat! with
+    | some i => let m1 := quiesce fuel0 { m with opened := i :: m.opened }; (m1, s!"r{k}")
+    | none => (m, s!"r{k}")
   | ["w", _] => let m1 := quiesce fuel0 m; (m1, showState m1)
   | ["park", pt, n] => (setBudget m pt n.toNat!, "park")
   | ["wp", pt, _] =>
@@ -311,7 +325,7 @@ def runStress (line : String) : String :=
   let m0 : Sim := startPool { c := mkCfg toks }
   let m := (List.range n).foldl (fun acc j =>
     let k : Kind := if pans.contains j then .pnow (j % 97 + 1) else .fast
-    let (m1, i) := newSub acc false k
+    let (m1, i) := newSub acc false j k
     quiesce fuel0 (runSub 100 m1 i)) m0
   let okAll := (List.range n).all fun j => m.s.started.count j == 1
   if okAll then s!"ok acc={m.s.accepted.length} ran={m.s.finished.length} han={m.s.handlerLog.length} closed=ok"
